@@ -71,9 +71,7 @@ class VttContext:
         FontStyleType.normal,
         FontStyleType.italic
       ],
-      StyleProperties.TextDecoration: [
-        TextDecorationType.underline
-      ],
+      StyleProperties.TextDecoration: [],
       StyleProperties.Color: [],
       StyleProperties.BackgroundColor: []
     }
